@@ -166,3 +166,30 @@ Theorem C07_late_or_missing_stale_marker_fails :
   (forall v, 2 <= v -> v <= n -> In (LF (nlabel_of false (v - 1)) (c_stale_value cfg) (ep_of v)) (leaves t)) \/ Bad.
 Proof. exact history_needs_timely_stale. Qed.
 Print Assumptions C07_late_or_missing_stale_marker_fails.
+
+(* ------------------------------------------------------------------ the known finding K2, as a witness *)
+(* The exception in [amrel] is real: a user published at epoch 1 with the empty value; the honest
+   history proof with its epoch replaced by 0 is ACCEPTED under AllowMissingValues and reports epoch
+   0, while Default mode rejects it.  Evaluated inside Coq with a transparent 32-byte "hash" that
+   keeps the epoch bytes (reversal + truncation) and a finite VRF table; the same input shape is
+   replayed against the implementation by the harness (KNOWN-FINDING K2). *)
+From Akd Require Import BitsLabel DirRefine.
+Definition k2_H (x : bytes) : bytes := firstn 32 (rev x ++ repeat 0 32).
+Definition k2_user : bytes := [1].
+Definition k2_bits (f : bool) (v : N) : list bool := f :: N.testbit v 1 :: N.testbit v 0 :: repeat false 253.
+Definition k2_vrf_label (l : bytes) (f : bool) (v : N) : option nlabel :=
+  if bytes_eqb l k2_user && (v <? 4) then Some (nl_of_bits (k2_bits f v)) else None.
+Definition k2_vrf_proof (l : bytes) (f : bool) (v : N) : option bytes :=
+  match k2_vrf_label l f v with Some nl => Some (lval nl) | None => None end.
+Definition k2_vrf_check (pk pr alpha : bytes) : option bytes := Some pr.
+Definition k2_st := run_publishes (whatsapp k2_H) [9] k2_vrf_label dir_new [[(k2_user, [])]].
+Definition k2_forge (p : history_proof) : history_proof :=
+  HP (map (fun u => UP 0 (up_version u) (up_value u) (up_existence_vrf u) (up_existence u) (up_prev_vrf u) (up_prev u) (up_nonce u)) (hp_updates p))
+     (hp_past_vrf p) (hp_past p) (hp_future_vrf p) (hp_future p).
+
+Example C07_K2_witness :
+  exists p eh, key_history (whatsapp k2_H) [9] k2_vrf_label k2_vrf_proof k2_st k2_user HComplete = DOk (p, eh) /\
+    key_history_verify (whatsapp k2_H) k2_vrf_check [] (snd eh) (fst eh) k2_user p HComplete true = Some [VRes 1 1 []] /\
+    key_history_verify (whatsapp k2_H) k2_vrf_check [] (snd eh) (fst eh) k2_user (k2_forge p) HComplete true = Some [VRes 0 1 []] /\
+    key_history_verify (whatsapp k2_H) k2_vrf_check [] (snd eh) (fst eh) k2_user (k2_forge p) HComplete false = None.
+Proof. eexists. eexists. split; [vm_compute; reflexivity|]. split; [vm_compute; reflexivity|]. split; vm_compute; reflexivity. Qed.
